@@ -669,6 +669,39 @@ def r_c10(p):
 
 
 def r_c11(p):
+    """v3/v4 run with ABSTRACT scores in the check: a witness fixes which metrics are present and
+    a (score, rating) pattern that its own vector need not have.  If the witness vector itself
+    shows nothing, other value assignments with the same set of present metrics are tried
+    (bounded, seeded): the replay confirms a real input or reports that none was found."""
+    res = _r_c11_one(p)
+    if res.get("violates") or p.get("version") == 2:
+        return res
+    import random
+
+    from spec import grammar
+
+    version = p["version"]
+    g = grammar.GRAMMARS[version]
+    table = dict(g["metrics"])
+    fields = p["vector"].split("/")
+    head = [f for f in fields if f.startswith("CVSS:")]
+    mets = [f.split(":")[0] for f in fields if not f.startswith("CVSS:")]
+    rng = random.Random(11)
+    for _ in range(600):
+        cand = "/".join(head + [m_ + ":" + rng.choice(table[m_]) for m_ in mets])
+        q = dict(p)
+        q["vector"] = cand
+        try:
+            r2 = _r_c11_one(q)
+        except Exception:  # noqa: BLE001
+            continue
+        if r2.get("violates"):
+            r2["found_by"] = "search over value assignments with the witness' set of present metrics"
+            return r2
+    return res
+
+
+def _r_c11_one(p):
     from spec import grammar, json_names as JN
 
     version = p["version"]
